@@ -11,6 +11,9 @@ const validationPkg = "github.com/invopop/validation"
 // FieldRule is one validation.Field(&x.F, rules...) entry.
 type FieldRule struct {
 	Field *types.Var
+	// Cond: the field is listed only when this holds (the list is built with a
+	// conditional append); nil when it is always listed
+	Cond ast.Expr
 	Base  *types.Var // the variable whose field is taken
 	Rules []ast.Expr
 	Call  *ast.CallExpr
@@ -76,6 +79,35 @@ func StructValidations(info *types.Info, body ast.Node) []*StructValidation {
 				sv.Opaque = true
 			}
 		}
+		// a conditional append of field entries arrives as validation.When(c, Field(...)...)
+		conds := map[ast.Expr]ast.Expr{}
+		var flat []ast.Expr
+		for _, a := range fieldArgs {
+			if wc, ok := ast.Unparen(a).(*ast.CallExpr); ok && len(wc.Args) >= 2 {
+				if wf := Callee(info, wc); wf != nil && wf.Pkg() != nil && wf.Pkg().Path() == validationPkg && wf.Name() == "When" {
+					allFields := true
+					for _, x := range wc.Args[1:] {
+						xc, ok := ast.Unparen(x).(*ast.CallExpr)
+						if !ok {
+							allFields = false
+							break
+						}
+						if xf := Callee(info, xc); xf == nil || xf.Name() != "Field" {
+							allFields = false
+						}
+					}
+					if allFields {
+						for _, x := range wc.Args[1:] {
+							conds[x] = wc.Args[0]
+							flat = append(flat, x)
+						}
+						continue
+					}
+				}
+			}
+			flat = append(flat, a)
+		}
+		fieldArgs = flat
 		for _, a := range fieldArgs {
 			fc, ok := ast.Unparen(a).(*ast.CallExpr)
 			if !ok {
@@ -116,7 +148,7 @@ func StructValidations(info *types.Info, body ast.Node) []*StructValidation {
 					rules[i] = ds[0].RHS
 				}
 			}
-			sv.Fields = append(sv.Fields, FieldRule{Field: fld, Base: RootVar(info, fc.Args[0]), Rules: rules, Call: fc})
+			sv.Fields = append(sv.Fields, FieldRule{Field: fld, Base: RootVar(info, fc.Args[0]), Rules: rules, Call: fc, Cond: conds[a]})
 		}
 		out = append(out, sv)
 		return true
@@ -129,6 +161,9 @@ func StructValidations(info *types.Info, body ast.Node) []*StructValidation {
 // that is not modified otherwise (no append, no element assignment).
 func spreadElements(info *types.Info, body ast.Node, e ast.Expr) ([]ast.Expr, bool) {
 	e = ast.Unparen(e)
+	if els, ok := builtByAppends(info, body, e); ok {
+		return els, true
+	}
 	if v := VarOf(info, e); v != nil && !v.IsField() {
 		ld := NewLocalDefs(info, body)
 		ds := ld.All(v)
@@ -147,6 +182,17 @@ func spreadElements(info *types.Info, body ast.Node, e ast.Expr) ([]ast.Expr, bo
 		}
 		if lit == nil {
 			return nil, false
+		}
+		// the one definition is `append(y, els...)` of another such list: y's elements, then els
+		if call, ok := ast.Unparen(lit).(*ast.CallExpr); ok && len(call.Args) >= 1 && !call.Ellipsis.IsValid() {
+			if id, ok := call.Fun.(*ast.Ident); ok && id.Name == "append" {
+				if y := VarOf(info, call.Args[0]); y != nil && y != v {
+					if base, ok := spreadElements(info, body, call.Args[0]); ok {
+						return append(append([]ast.Expr{}, base...), call.Args[1:]...), true
+					}
+				}
+				return nil, false
+			}
 		}
 		// no element assignment
 		bad := false
@@ -213,4 +259,177 @@ func RequiredFields(p *Program, named *types.Named) map[*types.Var]bool {
 		}
 	}
 	return out
+}
+
+
+// builtByAppends: a rule list kept in a local that starts empty (`var rules
+// []validation.Rule`, or a slice literal) and grows by `rules = append(rules,
+// r...)` statements standing directly in one statement list, each either
+// unconditional or the only statement of an `if c { … }` without else: the
+// list is the literal's elements followed by r (unconditional) or
+// validation.When(c, r...) (conditional), in order.
+func builtByAppends(info *types.Info, body ast.Node, e ast.Expr) ([]ast.Expr, bool) {
+	v := VarOf(info, e)
+	if v == nil || v.IsField() {
+		return nil, false
+	}
+	ld := NewLocalDefs(info, body)
+	var out []ast.Expr
+	nApp := 0
+	selfAppend := func(s ast.Stmt) ([]ast.Expr, bool) {
+		as, ok := s.(*ast.AssignStmt)
+		if !ok || len(as.Lhs) != 1 || len(as.Rhs) != 1 || as.Tok != token.ASSIGN || VarOf(info, as.Lhs[0]) != v {
+			return nil, false
+		}
+		call, ok := ast.Unparen(as.Rhs[0]).(*ast.CallExpr)
+		if !ok || len(call.Args) < 2 || call.Ellipsis.IsValid() {
+			return nil, false
+		}
+		if id, ok := call.Fun.(*ast.Ident); !ok || id.Name != "append" || VarOf(info, call.Args[0]) != v {
+			return nil, false
+		}
+		return call.Args[1:], true
+	}
+	// the statement list that holds the declaration
+	var list []ast.Stmt
+	ast.Inspect(body, func(n ast.Node) bool {
+		var l []ast.Stmt
+		switch x := n.(type) {
+		case *ast.BlockStmt:
+			l = x.List
+		case *ast.CaseClause:
+			l = x.Body
+		}
+		for _, s := range l {
+			switch d := s.(type) {
+			case *ast.DeclStmt:
+				if gd, ok := d.Decl.(*ast.GenDecl); ok {
+					for _, sp := range gd.Specs {
+						if vs, ok := sp.(*ast.ValueSpec); ok {
+							for _, nm := range vs.Names {
+								if info.Defs[nm] == types.Object(v) {
+									list = l
+								}
+							}
+						}
+					}
+				}
+			case *ast.AssignStmt:
+				if d.Tok == token.DEFINE {
+					for _, lh := range d.Lhs {
+						if id, ok := lh.(*ast.Ident); ok && info.Defs[id] == types.Object(v) {
+							list = l
+						}
+					}
+				}
+			}
+		}
+		return list == nil
+	})
+	if list == nil {
+		return nil, false
+	}
+	var when *types.Func
+	for _, o := range info.Uses {
+		if pn, ok := o.(*types.PkgName); ok && pn.Imported().Path() == validationPkg {
+			when, _ = pn.Imported().Scope().Lookup("When").(*types.Func)
+			break
+		}
+	}
+	started := false
+	accounted := 0
+	for _, s := range list {
+		switch x := s.(type) {
+		case *ast.DeclStmt:
+			gd, _ := x.Decl.(*ast.GenDecl)
+			if gd == nil {
+				continue
+			}
+			for _, sp := range gd.Specs {
+				vs, _ := sp.(*ast.ValueSpec)
+				if vs == nil {
+					continue
+				}
+				for i, nm := range vs.Names {
+					if info.Defs[nm] != types.Object(v) {
+						continue
+					}
+					started = true
+					accounted++
+					if len(vs.Values) > i {
+						cl, ok := ast.Unparen(vs.Values[i]).(*ast.CompositeLit)
+						if !ok {
+							return nil, false
+						}
+						out = append(out, cl.Elts...)
+					}
+				}
+			}
+		case *ast.AssignStmt:
+			if x.Tok == token.DEFINE && len(x.Lhs) == 1 && len(x.Rhs) == 1 {
+				if id, ok := x.Lhs[0].(*ast.Ident); ok && info.Defs[id] == types.Object(v) {
+					started = true
+					accounted++
+					cl, ok := ast.Unparen(x.Rhs[0]).(*ast.CompositeLit)
+					if !ok {
+						return nil, false
+					}
+					for _, el := range cl.Elts {
+						if _, isKV := el.(*ast.KeyValueExpr); isKV {
+							return nil, false
+						}
+					}
+					out = append(out, cl.Elts...)
+					continue
+				}
+			}
+			if els, ok := selfAppend(x); ok && started {
+				out = append(out, els...)
+				accounted++
+				nApp++
+			}
+		case *ast.IfStmt:
+			if !started || x.Init != nil || x.Else != nil || len(x.Body.List) != 1 {
+				continue
+			}
+			els, ok := selfAppend(x.Body.List[0])
+			if !ok {
+				continue
+			}
+			if when == nil {
+				return nil, false
+			}
+			pos := x.Body.List[0].Pos()
+			pk := &ast.Ident{Name: "validation", NamePos: pos}
+			sel := &ast.Ident{Name: "When", NamePos: pos}
+			fun := &ast.SelectorExpr{X: pk, Sel: sel}
+			info.Uses[sel] = when
+			call := &ast.CallExpr{Fun: fun, Lparen: pos, Args: append([]ast.Expr{x.Cond}, els...), Rparen: x.Body.List[0].End()}
+			if sig, ok := when.Type().(*types.Signature); ok && sig.Results().Len() == 1 {
+				info.Types[call] = types.TypeAndValue{Type: sig.Results().At(0).Type()}
+			}
+			out = append(out, call)
+			accounted++
+			nApp++
+		}
+	}
+	// every definition of the variable is one of those seen, and nothing writes its elements
+	if !started || nApp == 0 || accounted != len(ld.All(v)) {
+		return nil, false
+	}
+	bad := false
+	ast.Inspect(body, func(n ast.Node) bool {
+		if as, ok := n.(*ast.AssignStmt); ok {
+			for _, l := range as.Lhs {
+				if ix, ok := ast.Unparen(l).(*ast.IndexExpr); ok && VarOf(info, ix.X) == v {
+					bad = true
+				}
+			}
+		}
+		return true
+	})
+	if bad {
+		return nil, false
+	}
+	return out, true
 }
